@@ -223,10 +223,12 @@ class FnItem:
 
 
 class Scope:
-    def __init__(self, kind, name, trait=None):
+    def __init__(self, kind, name, trait=None, selfref=""):
         self.kind = kind    # impl | mod | trait
         self.name = name    # self type / module name
         self.trait = trait  # for impl: joined trait tokens or None
+        self.selfref = selfref  # for impl: "" | "&" | "&mut" (`impl Tr for &'a mut Ty<..>`); used by the API tie only
+        self.trait_toks = None  # for impl: the trait's tokens (API tie: lifetime-insensitive normal form)
 
     def __repr__(self):
         return "%s %s%s" % (self.kind, (self.trait + " for ") if self.trait else "", self.name)
@@ -298,6 +300,7 @@ class Items:
         self.fns = []
         self.structs = []
         self.consts = []
+        self.impls = []     # scope chains (outermost first, the impl itself last) of every `impl` block, also empty ones
 
 
 def scan_items(toks):
@@ -463,7 +466,12 @@ def _scan_impl(toks, i, ctx, items):
         trait, selfty = None, hdr
     else:
         trait, selfty = join(hdr[:cut]), hdr[cut + 1:]
-    scope = Scope("impl", _type_head(selfty), trait)
+    selfref = ""
+    if selfty and selfty[0].text == "&":
+        selfref = "&mut" if any(x.kind == "id" and x.text == "mut" for x in selfty[1:3]) else "&"
+    scope = Scope("impl", _type_head(selfty), trait, selfref)
+    scope.trait_toks = None if cut is None else list(hdr[:cut])
+    items.impls.append(ctx + [scope])
     return _scan(toks, j + 1, ctx + [scope], items)
 
 
